@@ -368,6 +368,17 @@ fn roundtrip(w: &mut Worker, req: &str, limit_ms: u64) -> Resp {
   }
 }
 
+/// Drop this thread's worker process: the next `worker_call` starts a fresh one.
+pub fn reset_worker() {
+  WORKER.with(|cell| {
+    if let Some(mut w) = cell.borrow_mut().take() {
+      drop(w.stdin);
+      let _ = w.child.kill();
+      let _ = w.child.wait();
+    }
+  });
+}
+
 pub fn worker_call(kind: &str, schema: &str, doc: &[u8]) -> V {
   let req = serde_json::json!({"k": kind, "s": schema, "d": crate::cbor::hex(doc)}).to_string();
   let limit = CALL_LIMIT_MS.load(std::sync::atomic::Ordering::Relaxed);
@@ -461,10 +472,45 @@ pub fn worker_main() {
       let v = match j["k"].as_str().unwrap_or("") {
         "json" => validate_json_local(schema, &String::from_utf8_lossy(&doc), None),
         "cbor" => validate_cbor_local(schema, &doc, None),
+        "csv0" => validate_csv(schema, &String::from_utf8_lossy(&doc), Some(false)),
+        "csv1" => validate_csv(schema, &String::from_utf8_lossy(&doc), Some(true)),
+        "parse" => parse_all_local(&doc),
+        "decode" => match guard(|| cddl::validator::cbor_value::decode_cbor(&doc).map(|_| ())) {
+          Err(p) => V::Panic(p),
+          Ok(Ok(())) => V::Ok,
+          Ok(Err(e)) => V::DocErr(e.to_string()),
+        },
         _ => V::OtherErr("unknown request".into()),
       };
       let _ = writeln!(out, "{}", encode_v(&v));
       let _ = out.flush();
     }
+  }
+}
+
+
+/// The parsing-side entry points on one input: cddl_from_str, Display of the AST (and a re-parse of the output),
+/// CDDL::from_slice (checked parse, bytes need not be UTF-8) and ParentVisitor::new.
+pub fn parse_all_local(bytes: &[u8]) -> V {
+  let r = guard(|| {
+    let _ = cddl::ast::CDDL::from_slice(bytes);
+    let text = match std::str::from_utf8(bytes) {
+      Ok(t) => t,
+      Err(_) => return Err("not utf-8".to_string()),
+    };
+    match cddl::cddl_from_str(text, false) {
+      Ok(c) => {
+        let s = c.to_string();
+        let _ = cddl::cddl_from_str(&s, false);
+        let _ = cddl::ast::parent::ParentVisitor::new(&c).is_ok();
+        Ok(())
+      }
+      Err(e) => Err(e),
+    }
+  });
+  match r {
+    Err(p) => V::Panic(p),
+    Ok(Ok(())) => V::Ok,
+    Ok(Err(e)) => V::SchemaErr(e),
   }
 }
